@@ -190,3 +190,22 @@ Example C04_ucomplex_covariance_nonvacuous :
   exists s' re im,
     ucomplex_decl RCNum (init RNum 1) (@PC RCNum 1 2) (USeq4 4 1 1 9) DInf None true = Ok (s', DElem RCNum re im).
 Proof. exact ucomplex_covariance_nonvacuous. Qed.
+
+(* uncertainty is the non-negative square root of the variance; get_correlation of results is
+   covariance / sqrt(variance variance) (0 when the covariance is 0) *)
+Theorem C04_uncertainty_is_sqrt_variance :
+  forall (s : KTypes.state R) (o : KTypes.ureal R) u c',
+    node_u RNum s o = Ok None -> prop_u RNum s o None = Ok (u, c') ->
+    exists v, std_variance_real RNum s o = Ok v /\ 0 <= v /\ u = sqrt v /\ 0 <= u /\ u * u = v.
+Proof. exact uncertainty_is_sqrt_variance. Qed.
+Print Assumptions C04_uncertainty_is_sqrt_variance.
+
+Theorem C04_correlation_is_normalised_covariance :
+  forall (s : KTypes.state R) (a b : KTypes.ureal R) r,
+    ((forall k, unode a <> LeafRef k) \/ (forall k, unode b <> LeafRef k)) ->
+    get_correlation_real RNum s a b = Ok r ->
+    exists va vb c, std_variance_real RNum s a = Ok va /\ std_variance_real RNum s b = Ok vb /\
+                    std_covariance_real RNum s a b = Ok c /\
+                    (c = 0 -> r = 0) /\ (c <> 0 -> r = c / sqrt (va * vb)).
+Proof. exact correlation_is_normalised_covariance. Qed.
+Print Assumptions C04_correlation_is_normalised_covariance.
